@@ -568,6 +568,50 @@ def judge_sequences(ctx, cfg, lits):
     ctx.count('sequences', len(lines))
     return v
 
+def judge_driven_sequences(ctx, cfg, lits):
+    """ONE Deserializer driven item by item (f32::deserialize / f64::deserialize in turn) over literals separated by spaces, where some items FAIL
+    (out of range for their type) and the failure is swallowed, as a lenient wrapper or manual driving would: every later number must still be the
+    correctly rounded value of its own literal for its own type (nothing — e.g. a single-precision flag — may leak out of a failed item)"""
+    feats = engine.CONFIGS[cfg][0]
+    if 'float_roundtrip' not in feats:
+        return []
+    rng = ctx.rng
+    bad32 = [b'1e39', b'-3.5e38', b'340282356779733661637539395458142568448', b'1e400', b'4e38']      # out of range for f32 (some fine for f64)
+    bad64 = [b'1e309', b'-1.8e308', b'2e308']
+    good = [b'0.1', b'-0.3', b'1e-320', b'16777217', b'0.1234567890123456789012', b'9007199254740993', b'3.4028235e38', b'1.00000000000000011102230246251565404236316680908203125', b'5e-324']
+    good += [l for l in lits if len(l) < 40][:200]
+    lines, meta = [], []
+    n = 1500 if ctx.tier == 'quick' else 20000
+    for i in range(n):
+        items = []
+        for _ in range(rng.choice([2, 3, 4])):
+            r = rng.random()
+            if r < 0.3:
+                items.append(('s', rng.choice(bad32)))
+            elif r < 0.4:
+                items.append(('d', rng.choice(bad64)))
+            else:
+                items.append((rng.choice('ds'), rng.choice(good)))
+        exp = []
+        for k, lit in items:
+            e, _ = expect_typed(lit, F32 if k == 's' else F64)
+            exp.append(e)
+        if any(e is None for e in exp):
+            continue
+        for src in ('b', 'r'):
+            lines.append('sq %s %s' % (src, ','.join('%s:%s' % (k, hx(l)) for k, l in items)))
+            meta.append((items, ','.join(exp)))
+    outs = impl_s(ctx, cfg, lines, 'sjh_lex')
+    v = []
+    for (items, want), a, ln in zip(meta, outs, lines):
+        if a != want:
+            v.append({'what': 'number-depends-on-an-earlier-failed-item', 'cfg': cfg, 'input': hx(b' '.join(l for _, l in items)), 'line': ln[:300],
+                      'expected': 'each item correctly rounded for its own type: ' + want[:300], 'actual': a[:300], 'shrinkable': False})
+        elif not ctx.quiet:
+            ctx.distinct_nontrivial += 1
+    ctx.count('driven-sequences', len(lines))
+    return v
+
 # ---- serialise-then-deserialise
 def f64_samples(ctx):
     rng = ctx.rng
@@ -981,6 +1025,7 @@ def run_c07(ctx, extended=False):
                     ctx.violations += judge_lits(ctx, cfg, texts[::3], {'target': fmt.name})
             ctx.violations += sweep64(ctx, cfg)
             ctx.violations += judge_sequences(ctx, cfg, keep64)
+            ctx.violations += judge_driven_sequences(ctx, cfg, keep64)
         else:
             vs, _ = judge_roundtrip(ctx, cfg, list(f32_samples(ctx)), F32)
             ctx.violations += vs
